@@ -7,7 +7,7 @@ open VibeProof VibeProof.Proto VibeProof.Codec VibeProof.Trigger
 `(run (cfg (bad TIDMIN COL VAL) (ok COL VAL)) (trigs T…) (rows R…) STMT)`
   → `(res (ok n)|(err E) (rows R…) (log (tid OLD NEW)…))`
 T    = `(t tid table b|a|i EVENT row|stmt 0|1 WHEN (ACTION…))`
-EVENT= `ins` | `del` | `(upd)` | `(upd c…)`
+EVENT= `ins` | `del` | `(upd)` | `(updof c…)`
 WHEN = `none` | `(cmp base|old|new c eq|ne|lt|le|gt|ge k)` | `(raw base|old|new c)`
 ACTION = `(audit 0|1 0|1)` | `(reinsert)` | `(insrow V…)` | `(decr old|new c)` | `(delkey old|new)`
 STMT = `(ins R…)` | `(upd SEL (c set k)|(c add k)|(c null)…)` | `(del SEL)` | `(delall)`
@@ -123,7 +123,7 @@ def decEvent : Sx → Option Event
   | .atom "ins" => some .insert
   | .atom "del" => some .delete
   | .list [.atom "upd"] => some (.update none)
-  | .list (.atom "upd" :: cs) => do
+  | .list (.atom "updof" :: cs) => do
     let cs ← cs.mapM Sx.nat?
     pure (.update (some cs))
   | _ => none
